@@ -281,6 +281,38 @@ func c10Check(c *Ctx, v string) (accepted bool) {
 		c.Run.Violate(ev.Violation{Pred: "no-crash", Sig: map[string]any{"value": v}, What: fmt.Sprintf("parsing %q panics: %v", text, p), Replay: map[string]any{"value": v}})
 		return false
 	}
+	// the same value on an exception rule, and through the line parser: accepted or rejected alike, with the same value
+	if v != "" {
+		var r3 *rules.NetworkRule
+		var r4 rules.Rule
+		var e3, e4 error
+		if p := protect(func() {
+			r3, e3 = rules.NewNetworkRule("@@"+text, 1)
+			r4, e4 = rules.NewRule(text, 1)
+		}); p != nil {
+			c.Run.Violate(ev.Violation{Pred: "no-crash", Sig: map[string]any{"value": v, "route": "exception / NewRule"}, What: fmt.Sprintf("parsing %q as an exception rule or through NewRule panics: %v", text, p), Replay: map[string]any{"value": v}})
+			return false
+		}
+		n4, isNet := r4.(*rules.NetworkRule)
+		okA, okB, okC := e1 == nil && r1 != nil, e3 == nil && r3 != nil, e4 == nil && n4 != nil
+		if text != strings.TrimSpace(text) || (r4 != nil && !isNet) {
+			// the line parser trims the line, and it may read the line as something else than a network rule: not comparable
+			n4, okC = r1, okA
+		}
+		if okA != okB || okA != okC || (okA && (!reflect.DeepEqual(r1.DNSRewrite, r3.DNSRewrite) || !reflect.DeepEqual(r1.DNSRewrite, n4.DNSRewrite))) {
+			show := func(r *rules.NetworkRule, err error) string {
+				if err != nil || r == nil {
+					return fmt.Sprintf("rejected (%v)", err)
+				}
+				if r.DNSRewrite == nil {
+					return "accepted without a rewrite"
+				}
+				return fmt.Sprintf("accepted with %+v", *r.DNSRewrite)
+			}
+			c.Run.Violate(ev.Violation{Pred: "same-value-on-every-route", Sig: map[string]any{"value": v},
+				What: fmt.Sprintf("value %q: NewNetworkRule on a blocking rule: %s; on the exception rule: %s; NewRule on the blocking rule: %s", v, show(r1, e1), show(r3, e3), show(n4, e4)), Replay: map[string]any{"value": v}})
+		}
+	}
 	// the class of the result is a function of the text alone (whatever was parsed before)
 	{
 		var d *rules.DNSRewrite
